@@ -16,6 +16,9 @@ import (
 
 type Input struct {
 	Ops []stor.Op `json:"ops"`
+	// Fresh: the history runs on a storage of its own (a new directory) instead of the process-wide one, so that it is
+	// the only application the storage has ever seen
+	Fresh bool `json:"fresh,omitempty"`
 }
 
 var store *stor.Store
@@ -36,11 +39,16 @@ func getStore() *stor.Store {
 func gen(r *rand.Rand, idx int, tier string) Input {
 	var in Input
 	napps := 2
+	nearNow := idx%6 == 5 // windows around the wall clock, some ahead of it (no retention guard in these histories)
+	if idx%6 == 4 {       // a storage that knows exactly one application, with several series
+		napps = 1
+		in.Fresh = true
+	}
 	var all [][]stor.SeriesDef
 	flat := []stor.SeriesDef{}
 	for a := 0; a < napps; a++ {
 		app := stor.UniqueApp("del", idx, a)
-		ss := stor.RandSeries(r, app, 2+r.Intn(2))
+		ss := stor.RandSeries(r, app, 2+r.Intn(2)+2*(2-napps))
 		all = append(all, ss)
 		flat = append(flat, ss...)
 	}
@@ -52,9 +60,15 @@ func gen(r *rand.Rand, idx int, tier string) Input {
 			break
 		}
 	}
+	if nearNow {
+		base = time.Now().Unix() / 1000 * 1000
+		if r.Intn(2) == 0 {
+			base = (time.Now().Unix()+stor.UnixOffset)/100*100 - stor.UnixOffset + int64(r.Intn(3)-1)*100
+		}
+	}
 	// retention guard threshold for ingests (30% of histories)
 	var guard int64
-	if r.Intn(10) < 3 {
+	if r.Intn(10) < 3 && !nearNow {
 		guard = base + (r.Int63n(40)-20)*10 + 5
 	}
 	minSlot, maxSlot := int64(-30), int64(40)
@@ -182,6 +196,16 @@ func gen(r *rand.Rand, idx int, tier string) Input {
 
 func run(in Input) lib.Result {
 	st := getStore()
+	if in.Fresh {
+		dir := fmt.Sprintf("/tmp/verif-c11-%d-fresh", os.Getpid())
+		os.RemoveAll(dir)
+		fs, err := stor.Open(dir, 0, 2048)
+		if err != nil {
+			panic(err)
+		}
+		defer fs.Destroy()
+		st = fs
+	}
 	hops := []string{}
 	crash := ""
 	feat := map[string]interface{}{}
@@ -214,6 +238,7 @@ func run(in Input) lib.Result {
 		feat[k] = v
 	}
 	feat["rejected_puts"] = rejected
+	feat["fresh_single_app"] = in.Fresh
 	return lib.Result{
 		Coq:        "{| c_ops := " + lib.List(hops) + " |}",
 		NonTrivial: (cnt["delete"] > 0 && reingestAfterDelete) || cnt["retention"] > 0,
